@@ -1024,7 +1024,7 @@ func oracleC12(rep *report, r *rng) {
 			if ctab == nil || len(ctab.Entries) == 0 {
 				continue
 			}
-			for k := 0; k < rounds(rep, 12, 80) && !rep.failed(); k++ {
+			for k := 0; k < rounds(rep, 30, 120) && !rep.failed(); k++ {
 				var keyStr string
 				m := r.genMessage(owner, genOpts{canonical: true, nilBody: 3})
 				ev := reflect.ValueOf(m).Elem()
